@@ -285,6 +285,11 @@ class Table:
             args = (c, args[2], args[1]) if flipped else (c, args[1], args[2])
             if isinstance(args[1], RF) and isinstance(args[2], RF) and self.equal(args[1], args[2]):
                 return args[1]
+            ca_ = c.single_atom()
+            if ca_ is not None and self.atoms[ca_].head == 'const' and self.atoms[ca_].args[0] in ('True', 'False') and \
+                    isinstance(args[1], RF) and isinstance(args[2], RF):
+                # a selection on a literal truth value is the selected arm
+                return args[1] if self.atoms[ca_].args[0] == 'True' else args[2]
         if head == 'bool' and extra in ('And', 'Or') and args and all(isinstance(x, RF) for x in args) and \
                 not getattr(self, '_in_bool', False):
             # one spelling per conjunction / disjunction: literals in canonical polarity and a fixed order; a
@@ -391,7 +396,7 @@ class Table:
                 n_ = None
                 if seq.head == 'tuple':
                     n_ = len(seq.args)
-                elif seq.head == 'call' and seq.extra and getattr(self, 'ret_len', None) is not None and \
+                elif seq.head in ('call', 'mcall') and seq.extra and getattr(self, 'ret_len', None) is not None and \
                         self.ret_len(seq.extra[0]) is not None:
                     # a function of the analysed tree whose every return is a tuple of n items
                     n_ = self.ret_len(seq.extra[0])
@@ -729,6 +734,8 @@ class Conv:
         c._bd = getattr(self, '_bd', 0)
         if getattr(self, 'forward_attrs', False):
             c.forward_attrs = True
+        if getattr(self, 'keep_casts', False):
+            c.keep_casts = True
         return c
 
     def parse(self, text):
@@ -822,6 +829,18 @@ class Conv:
                 ops = ({'Gt': 'Lt', 'GtE': 'LtE'}[ops[0]],)
             elif len(ops) == 1 and ops[0] in ('Eq', 'NotEq'):
                 args = sorted(args, key=lambda r: t.fmt(r))
+            if len(ops) == 1 and ops[0] in ('In', 'NotIn'):
+                # x in frozenset(T) / set(T) / list(T) / tuple(T) asks the same question as x in T (T a literal collection)
+                while True:
+                    ca_ = args[1].single_atom()
+                    if ca_ is not None and t.atoms[ca_].head == 'call' and \
+                            t.atoms[ca_].extra in (('fn:list',), ('fn:tuple',), ('fn:set',), ('fn:frozenset',)) and \
+                            len(t.atoms[ca_].args) == 1 and isinstance(t.atoms[ca_].args[0], RF):
+                        in_ = t.atoms[ca_].args[0].single_atom()
+                        if in_ is not None and t.atoms[in_].head == 'tuple':
+                            args[1] = t.atoms[ca_].args[0]
+                            continue
+                    break
             if len(ops) == 1 and ops[0] in ('In', 'NotIn') and isinstance(n.comparators[0], (ast.Tuple, ast.List, ast.Set)) \
                     and 1 <= len(n.comparators[0].elts) <= 3 and not any(isinstance(e, ast.Starred) for e in n.comparators[0].elts):
                 # membership in a literal collection is the disjunction of the equalities: x in (a, b)  ==  x == a or x == b
@@ -842,6 +861,9 @@ class Conv:
                                     self.expr(n.orelse)))
         if isinstance(n, (ast.Tuple, ast.List)):
             return t.atom('tuple', tuple(self.expr(e) for e in n.elts))
+        if isinstance(n, ast.Set) and not any(isinstance(e, ast.Starred) for e in n.elts):
+            # {a, b} is set((a, b))
+            return t.atom('call', (t.atom('tuple', tuple(self.expr(e) for e in n.elts)),), extra=('fn:set',))
         if isinstance(n, ast.Dict) and all(k is not None for k in n.keys):
             flat = []
             for k, v in zip(n.keys, n.values):
@@ -872,6 +894,13 @@ class Conv:
             r = self._comp(n)
             if r is not None:
                 return r
+        if isinstance(n, ast.Lambda) and len(n.args.args) == 1 and not (n.args.vararg or n.args.kwarg or n.args.kwonlyargs
+                                                                        or n.args.posonlyargs or n.args.defaults):
+            # lambda p: p[k] picks item k: the same key function as operator.itemgetter(k)
+            b_ = n.body
+            if isinstance(b_, ast.Subscript) and isinstance(b_.value, ast.Name) and b_.value.id == n.args.args[0].arg and \
+                    isinstance(b_.slice, ast.Constant) and isinstance(b_.slice.value, int):
+                return self.expr(ast.parse('operator.itemgetter(%d)' % b_.slice.value, mode='eval').body)
         # lambdas, dict comprehensions ...: opaque, keyed by normalised text
         return t.atom('opaque', (ast.unparse(n),), node=n)
 
@@ -1073,7 +1102,20 @@ class Conv:
             return t.rewrite(base, pick, _memo=None)
         return t.atom('idx', tuple([base] + conv))
 
+    def _alias_target(self, f):
+        """X when the called name is a local bound to the bare global / class name X (`make = PickleCIA; make(a)`, or a
+        parameter of an inlined helper that was handed the class): the call is a call of X"""
+        if isinstance(f, ast.Name) and f.id in self.env and isinstance(self.env[f.id], RF):
+            a = self.env[f.id].single_atom()
+            if a is not None and self.tab.atoms[a].head == 'name' and isinstance(self.tab.atoms[a].args[0], str) and \
+                    self.tab.atoms[a].args[0] not in self.env and self.tab.atoms[a].args[0][:1].isupper():
+                return self.tab.atoms[a].args[0]
+        return None
+
     def call_name(self, f):
+        al = self._alias_target(f)
+        if al is not None:
+            return al, None
         d = dotted(f)
         if d is not None:
             parts = d.split('.')
@@ -1108,6 +1150,11 @@ class Conv:
                 if ia is not None and t.atoms[ia].head == 'tuple' and all(isinstance(x, RF) for x in t.atoms[ia].args):
                     args.extend(t.atoms[ia].args)
                     continue
+                if ia is not None and t.atoms[ia].head in ('call', 'mcall') and t.atoms[ia].extra and \
+                        getattr(t, 'ret_len', None) is not None and t.ret_len(t.atoms[ia].extra[0]) is not None:
+                    # f(*g(x)) with g returning a tuple of n items at every return: f(g(x)[0], ..., g(x)[n-1])
+                    args.extend(t.atom('idx', (inner, t.const(j))) for j in range(t.ret_len(t.atoms[ia].extra[0])))
+                    continue
             args.append(v)
         kw = tuple(sorted(((k.arg or '**', self.expr(k.value))
                            for k in n.keywords), key=lambda kv: kv[0]))
@@ -1122,7 +1169,7 @@ class Conv:
             inl = self.on_call(n, name, recv, args, kw, recv_rf)
             if inl is not None:
                 return inl
-        if name is None or (isinstance(n.func, ast.Name) and n.func.id in self.env):
+        if name is None or (isinstance(n.func, ast.Name) and n.func.id in self.env and self._alias_target(n.func) is None):
             # call through an expression / a local bound to a value
             return t.atom('callexpr', tuple([self.expr(n.func)] + args + kwv),
                           extra=kwn or None)
@@ -1174,7 +1221,22 @@ class Conv:
             # builtin sum iterates the first axis
             kwn, kwv = ('axis',), [t.const(0)]
         # numeric normalisations
-        if name in ERASED_CALLS and len(args) == 1:
+        if name in ERASED_CALLS and len(args) == 1 and not (getattr(self, 'keep_casts', False) and name == 'float'):
+            return args[0]
+        if name == 'map' and recv is None and len(n.args) == 2 and not n.keywords and \
+                isinstance(n.args[0], (ast.Name, ast.Attribute)) and not any(isinstance(a, ast.Starred) for a in n.args):
+            # map(f, xs) visits f(x) for x in xs
+            g_ = ast.GeneratorExp(elt=ast.Call(func=n.args[0], args=[ast.Name(id='_m', ctx=ast.Load())], keywords=[]),
+                                  generators=[ast.comprehension(target=ast.Name(id='_m', ctx=ast.Store()), iter=n.args[1],
+                                                                ifs=[], is_async=0)])
+            ast.copy_location(g_, n)
+            ast.fix_missing_locations(g_)
+            r_ = self._comp(g_)
+            if r_ is not None:
+                return r_
+        if name == 'list' and recv is None and len(args) == 1 and not kw and args[0].single_atom() is not None and \
+                t.atoms[args[0].single_atom()].head == 'comp' and t.atoms[args[0].single_atom()].extra[0] == 'ListComp':
+            # list(<comprehension / generator / map>) is the list the comprehension builds
             return args[0]
         if name == 'sqrt' and len(args) == 1:
             return t.atom('sqrt', (args[0],))
